@@ -478,6 +478,8 @@ type Contract struct {
 	Loops     map[int]*LoopSpec
 	RangeCalls map[int]*LoopSpec
 	Implements string
+	Owns       []string
+	Gives      []string
 	ParamNames []string // declared parameter names (interface method contracts)
 	ImplAlias  []string // parameter names of the implemented interface method, positionally
 	ThisAlias  bool // `this` in clauses denotes the receiver
@@ -541,6 +543,8 @@ type GhostVar struct {
 type ContractSet struct {
 	Pairs     []Pair
 	Bounded   []BoundedCheck
+	ADTs      map[string]*ADTDecl
+	Owned     map[string]*OwnedDecl
 	Lemmas    []*Axiom
 	GhostVars map[string]*GhostVar
 	Funcs     map[string]*Contract // key: pkgname + "." + Key
@@ -553,14 +557,14 @@ type ContractSet struct {
 }
 
 func NewContractSet() *ContractSet {
-	return &ContractSet{GhostVars: map[string]*GhostVar{}, Funcs: map[string]*Contract{}, SpecFuncs: map[string]*SpecFunc{}, Axioms: map[string]*Axiom{}, TypeInvs: map[string]*TypeInv{}}
+	return &ContractSet{ADTs: map[string]*ADTDecl{}, Owned: map[string]*OwnedDecl{}, GhostVars: map[string]*GhostVar{}, Funcs: map[string]*Contract{}, SpecFuncs: map[string]*SpecFunc{}, Axioms: map[string]*Axiom{}, TypeInvs: map[string]*TypeInv{}}
 }
 
 var clauseKeywords = map[string]bool{
 	"func": true, "requires": true, "ensures": true, "exit_ensures": true, "rely": true, "panics_iff": true, "on_panic": true,
 	"assigns": true, "loop": true, "inline": true, "trusted": true, "classes": true, "pure": true,
 	"property": true, "spec": true, "axiom": true, "lemma": true, "type": true, "let": true, "mode": true,
-	"opt": true, "ghost": true, "callback": true, "pair": true, "ghostvar": true, "rangecall": true, "implements": true, "bounded": true,
+	"opt": true, "ghost": true, "callback": true, "pair": true, "ghostvar": true, "rangecall": true, "implements": true, "bounded": true, "adt": true, "owned": true, "owns": true, "gives": true,
 }
 
 // LoadContracts parses every zz_contracts_verif.go below root.
@@ -916,6 +920,47 @@ func (cs *ContractSet) parseFile(path string) error {
 			if kw == "axiom" {
 				cs.Scan = append(cs.Scan, fmt.Sprintf("%s: axiom %s (definitional equation of a spec function)", pkg, ax.Name))
 			}
+		case "adt":
+			// adt Tree = Leaf | Node(l Tree, v T, h int, r Tree)
+			j := strings.Index(rest, "=")
+			if j < 0 {
+				return fail("adt Name = Ctor | Ctor(fields)")
+			}
+			d := &ADTDecl{Name: strings.TrimSpace(rest[:j]), Pkg: pkg}
+			for _, alt := range strings.Split(rest[j+1:], "|") {
+				alt = strings.TrimSpace(alt)
+				c := ADTCtor{Name: alt}
+				if k := strings.Index(alt, "("); k >= 0 {
+					c.Name = strings.TrimSpace(alt[:k])
+					ps, err := parseParams(strings.TrimSuffix(alt[k+1:], ")"))
+					if err != nil {
+						return fail("%v", err)
+					}
+					c.Fields = ps
+				}
+				d.Ctors = append(d.Ctors, c)
+			}
+			cs.ADTs[d.Name] = d
+		case "owned":
+			// owned node view Tree nil Leaf ctor Node(left, value, height, right)
+			f := strings.Fields(strings.NewReplacer("(", " ", ")", " ", ",", " ").Replace(rest))
+			if len(f) < 8 || f[1] != "view" || f[3] != "nil" || f[5] != "ctor" {
+				return fail("owned <struct> view <adt> nil <ctor> ctor <ctor>(<fields...>)")
+			}
+			cs.Owned[pkg+"."+f[0]] = &OwnedDecl{Type: f[0], ADT: f[2], Nil: f[4], Ctor: f[6], Fields: f[7:], Pkg: pkg}
+		case "owns":
+			// owns <param>... : the structures below these pointers are consumed from the caller at a call
+			if cur == nil {
+				return fail("owns outside func")
+			}
+			cur.Owns = append(cur.Owns, strings.Fields(strings.ReplaceAll(rest, ",", " "))...)
+		case "gives":
+			// gives <result>... : ownership of the structures below these results passes to the caller;
+			// gives node(<result>): only the single node (its children are given or owned separately)
+			if cur == nil {
+				return fail("gives outside func")
+			}
+			cur.Gives = append(cur.Gives, strings.Fields(strings.ReplaceAll(rest, ",", " "))...)
 		case "bounded":
 			// bounded <property> <quick bound> <thorough bound> <description...> : a bounded stand-in run from the package's replay file
 			f := strings.Fields(rest)
@@ -1067,6 +1112,27 @@ func parseAxiom(s string) (*Axiom, error) {
 	}
 	if !strings.HasPrefix(rest, ":") {
 		return nil, fmt.Errorf("axiom name(params): body")
+	}
+	if ax.Auto {
+		// a global, quantified axiom: forall params :: {triggers} body
+		src := strings.TrimSpace(rest[1:])
+		if len(ps) > 0 {
+			var vs []string
+			for _, p := range ps {
+				if p.Type != "" {
+					vs = append(vs, p.Name+" "+p.Type)
+				} else {
+					vs = append(vs, p.Name)
+				}
+			}
+			src = "forall " + strings.Join(vs, ", ") + " :: " + src
+		}
+		e, err := ParseSpecExpr(src)
+		if err != nil {
+			return nil, err
+		}
+		ax.Body = e
+		return ax, nil
 	}
 	e, err := ParseSpecExpr(rest[1:])
 	if err != nil {
